@@ -229,11 +229,21 @@ def refusals(ctx):
 
 
 def dispatcher(ctx):
-    """run the emitted 32700 block with a symbolic error number"""
-    cases = [("ERR+BRK", "10 ON ERR GOTO 30 : ON BRK GOTO 40", 30, 40), ("ERR", "10 ON ERR GOTO 30", 30, None), ("BRK", "10 ON BRK GOTO 40", None, 40),
-             ("BRK+ERR", "10 ON BRK GOTO 40 : ON ERR GOTO 30", 30, 40), ("ERR=BRK", "10 ON ERR GOTO 30 : ON BRK GOTO 30", 30, 30)]
+    """run the emitted 32700 block with a symbolic error number; handler targets range over line 0, 30 and 40"""
+    cases = []
+    for err, brk in itertools.product((None, 0, 30, 40), repeat=2):
+        if err is None and brk is None:
+            continue
+        for order in ("eb", "be"):
+            if (err is None or brk is None) and order == "be":
+                continue
+            stm = {"e": f"ON ERR GOTO {err}" if err is not None else None, "b": f"ON BRK GOTO {brk}" if brk is not None else None}
+            head = "10 " + " : ".join(stm[k] for k in order if stm[k])
+            name = ("ERR" if brk is None else "BRK" if err is None else "ERR+BRK" if order == "eb" else "BRK+ERR") + f":err={err}:brk={brk}"
+            cases.append((name, head, err, brk))
     for name, head, err, brk in cases:
-        src = head + '\n20 END\n30 PRINT "ERR" : END\n40 PRINT "BRK" : END'
+        line0 = '0 PRINT "T0" : END\n' if 0 in (err, brk) else ""
+        src = line0 + head + '\n20 END\n30 PRINT "T30" : END\n40 PRINT "T40" : END'
         o = classify(src + "\n", plain=False, add_standard_prefix=False, add_suffix=True, skip_procedure_headers=True)
         ctx.stats["programs"] += 1
         if o[0] != "ok":
@@ -259,17 +269,19 @@ def dispatcher(ctx):
         for leaf in leaves:
             tags = [str(it[1]) for ev in leaf.trace if ev[0] == "print" for it in ev[1] if it[0] == "item"]
             landed = tags[0].strip('"') if tags else "nowhere"
-            # which error numbers reach this leaf?
             is_break = errnum == sem.num(2.0)
             ctx.stats["obligations"] += 1
-            if brk is not None and err is not None and brk != err:
-                want_cond = is_break if landed == "BRK" else z3.Not(is_break) if landed == "ERR" else z3.BoolVal(False)
-            elif brk is not None and err is None:
-                want_cond = is_break if landed == "BRK" else z3.Not(is_break)  # other errors must not reach the BRK target
-            elif err is not None and brk is None:
-                want_cond = z3.BoolVal(True) if landed == "ERR" else z3.BoolVal(False)
+            terr = None if err is None else f"T{err}"
+            tbrk = None if brk is None else f"T{brk}"
+            if brk is not None and err is not None:
+                if tbrk == terr:
+                    want_cond = z3.BoolVal(landed == terr)
+                else:
+                    want_cond = is_break if landed == tbrk else z3.Not(is_break) if landed == terr else z3.BoolVal(False)
+            elif brk is not None:
+                want_cond = is_break if landed == tbrk else z3.Not(is_break)  # other errors must not reach the BRK target
             else:
-                want_cond = z3.BoolVal(True) if landed == "ERR" else z3.BoolVal(False)
+                want_cond = z3.BoolVal(landed == terr)
             v, mdl = smt.check(list(leaf.cond) + [z3.Not(want_cond)], 10000, True)
             ctx.stats[v] += 1
             ctx.sample({"dispatcher": name, "lands_at": landed, "path": [str(c) for c in leaf.cond], "verdict": v})
